@@ -45,9 +45,9 @@ def handle (args : List String) (_impl : String) : String × String :=
     let x := parseHex as; let y := parseHex bs'
     let m := 2 ^ bits
     match op with
-    | "omul" => (outF (Ruint.Gen.uint_overflowing_mul bits (nlimbs bits) a b), toHex ((x * y) % m) ++ " " ++ boolStr (decide (m ≤ x * y)))
-    | "cmul" => (outO (Ruint.Gen.uint_checked_mul bits (nlimbs bits) a b), sOpt (decide (x * y < m)) (x * y))
-    | "smul" => (out (Ruint.Gen.uint_saturating_mul bits (nlimbs bits) a b), toHex (min (x * y) (m - 1)))
+    | "omul" => (outF (Ruint.Gen.uint_overflowing_mul (3 * nlimbs bits + 1) bits (nlimbs bits) a b), toHex ((x * y) % m) ++ " " ++ boolStr (decide (m ≤ x * y)))
+    | "cmul" => (outO (Ruint.Gen.uint_checked_mul (3 * nlimbs bits + 1) bits (nlimbs bits) a b), sOpt (decide (x * y < m)) (x * y))
+    | "smul" => (out (Ruint.Gen.uint_saturating_mul (3 * nlimbs bits + 1) bits (nlimbs bits) a b), toHex (min (x * y) (m - 1)))
     | "wmul" | "mul0" | "mul1" | "mul2" | "mul3" | "mul4" | "mul5" =>
         (out (Ruint.Gen.uint_wrapping_mul bits (nlimbs bits) a b), toHex ((x * y) % m))
     | _ => ("bad-op", "bad-op")
